@@ -58,3 +58,58 @@ class PeerSocket:
 def wellformed_frame(frame):
     """a reply frame: 24-byte encapsulation header whose length field (bytes 2-3) counts the bytes that follow"""
     return len(frame) >= 24 and len(frame) == 24 + le16(frame, 2)
+
+
+class Transport:
+    """Assumed contract of pycomm3.socket_.Socket as the driver sees it (proved separately in C12): send() delivers
+    the whole message or raises CommError, receive() returns one reply frame or raises CommError."""
+
+    def __init__(self, replies=(), fail_at=None):
+        self.sent = []
+        self.replies = list(replies)
+        self.calls = 0            # number of send/receive calls so far
+        self.fail_at = fail_at    # index of the call that raises CommError (None: no fault)
+        self.closed = False
+
+    def _tick(self):
+        k = self.calls
+        self.calls = self.calls + 1
+        if self.fail_at is not None and k == self.fail_at:
+            from pycomm3.exceptions import CommError
+            raise CommError("transport fault")
+
+    def connect(self, host, port):
+        self._tick()
+
+    def send(self, msg, timeout=0):
+        self._tick()
+        self.sent.append(msg)
+        return len(msg)
+
+    def receive(self, timeout=0):
+        self._tick()
+        if len(self.replies) == 0:
+            from pycomm3.exceptions import CommError
+            raise CommError("no reply")
+        return self.replies.pop(0)
+
+    def close(self):
+        self.closed = True
+
+
+class EchoResponse:
+    """stand-in for an embedded service response: records what it was built from (used to isolate the parsing of
+    the Multiple Service Packet reply itself from the parsing of the embedded replies, which have their own contracts)"""
+
+    def __init__(self, request, raw):
+        self.request = request
+        self.raw = raw
+
+
+class EchoRequest:
+    response_class = EchoResponse
+    type_ = "read"
+    error = None
+
+    def tag_only_message(self):
+        return b""
